@@ -659,6 +659,17 @@ func (cli *Client) writeExistingTracts(
 		return 0, core.ErrNoSuchTract
 	}
 
+	// A tract that has been moved to erasure-coded storage comes back with an
+	// RS pointer and no hosts (even while the blob's class is still REPLICATED:
+	// the class is switched only after all tracts are encoded). There is no
+	// replica to write to; refuse instead of "writing" to zero hosts.
+	for _, tract := range tracts {
+		if tract.RS.Present() || len(tract.Hosts) == 0 {
+			log.Errorf("tract %s has no replicated storage to write to", tract.Tract)
+			return 0, core.ErrReadOnlyStorageClass
+		}
+	}
+
 	// Check for the same replication factor across all tracts.
 	repl := len(tracts[0].Hosts)
 	for _, tract := range tracts {
